@@ -246,6 +246,126 @@ Definition write_at (r : list byte) (off : N) (d : list byte) : list byte * N * 
       else (r1, 0, e1)
   else (r, 0, e).
 
+(* ---------- the same write side on a file system that can run out of space ---------- *)
+(* Fault oracle for the ENOSPC path of writeBlock: the file system has `free` bytes left. Bytes of a write that
+   overwrite existing file bytes (or fall into a hole) always succeed; bytes that extend the file consume free
+   space; when it is used up the write is short, (n, ENOSPC), exactly like os.File.WriteAt. Truncation gives the
+   bytes back. The harness drives the real code through the same quota in a mockFile wrapper (osFileOpener). *)
+Definition E_NOSPC : N := 5.
+
+Definition raw_write_q (r : list byte) (free off : N) (d : list byte) : list byte * N * N * N :=
+  let need := (off + lenN d) - N.max (lenN r) off in
+  if need <=? free then (raw_write r off d, free - need, lenN d, E_OK)
+  else let n := lenN d - (need - free) in
+       (raw_write r off (take n d), 0, n, E_NOSPC).
+
+Definition raw_truncate_q (r : list byte) (free m : N) : list byte * N :=
+  (raw_truncate r m, free + (lenN r - m)).
+
+(* writeBlock with its error handling: (raw', free', bytes of the block's data written, err) *)
+Definition write_block_q (r : list byte) (free : N) (b : blk) (k : N) : list byte * N * N * N :=
+  let '(r1, f1, n, e) := raw_write_q r free (HL + BL * k) (b_data b ++ le32 (b_ck b)) in
+  if e =? E_OK then (r1, f1, lenN (b_data b), E_OK)
+  else if n <=? CL then
+    let '(r2, f2) := raw_truncate_q r1 f1 (HL + BL * k) in (r2, f2, 0, e)
+  else
+    let '(pb, _) := blk_append blk0 (take (n - CL) (b_data b)) in
+    let '(r2, f2, _, e2) := raw_write_q r1 f1 (HL + BL * k) (b_data pb ++ le32 (b_ck pb)) in
+    if e2 =? E_OK then (r2, f2, lenN (b_data pb), e) else (r2, f2, 0, E_CORRUPT).
+
+Fixpoint append_loop_q (fuel : nat) (r : list byte) (free : N) (b : blk) (k : N) (d : list byte) (n : N)
+  : list byte * N * N * N :=
+  match fuel with
+  | O => (r, free, n, E_FUEL)
+  | S f =>
+      match d with
+      | [] => (r, free, n, E_OK)
+      | _ =>
+          let prior := lenN (b_data b) in
+          let '(b', _) := blk_append b d in
+          let '(r', free', wn, e) := write_block_q r free b' k in
+          if e =? E_OK then append_loop_q f r' free' blk0 (k + 1) (drop (wn - prior) d) (n + (wn - prior))
+          else (r', free', n + (wn - prior), e)
+      end
+  end.
+
+Definition append_q (r : list byte) (free : N) (d : list byte) : list byte * N * N * N :=
+  let '(off, e) := size_of r in
+  if e =? E_OK then
+    let k := off / DL in
+    let fuel := (N.to_nat (lenN d / DL) + 3)%nat in
+    if off mod DL =? 0 then append_loop_q fuel r free blk0 k d 0
+    else
+      let '(e2, b) := read_block r k in
+      if e2 =? E_OK then append_loop_q fuel r free b k d 0 else (r, free, 0, e2)
+  else (r, free, 0, e).
+
+Fixpoint pad_loop_q (fuel : nat) (r : list byte) (free num : N) : list byte * N * N :=
+  match fuel with
+  | O => (r, free, E_FUEL)
+  | S f =>
+      if num =? 0 then (r, free, E_OK)
+      else
+        let z := zeros (N.min num DL) in
+        let '(r', free', n, e) := append_q r free z in
+        if e =? E_OK then
+          if n =? lenN z then pad_loop_q f r' free' (num - n) else (r', free', E_PANIC)
+        else (r', free', e)
+  end.
+
+Definition pad_q (r : list byte) (free num : N) : list byte * N * N :=
+  pad_loop_q (N.to_nat (num / DL) + 3) r free num.
+
+Fixpoint change_loop_q (fuel : nat) (r : list byte) (free off : N) (d : list byte) : list byte * N * N :=
+  match fuel with
+  | O => (r, free, E_FUEL)
+  | S f =>
+      match d with
+      | [] => (r, free, E_OK)
+      | _ =>
+          let k := off / DL in
+          let bo := off mod DL in
+          let go (b' : blk) (n : N) :=
+            let '(r', free', wn, e) := write_block_q r free b' k in
+            if e =? E_OK then
+              if wn =? lenN (b_data b') then change_loop_q f r' free' (off + n) (drop n d) else (r', free', E_PANIC)
+            else (r', free', e) in
+          if negb (bo =? 0) || (lenN d <? DL) then
+            let '(e, b) := read_block r k in
+            if e =? E_OK then
+              match blk_change b d bo with
+              | None => (r, free, E_PANIC)
+              | Some (b', n) => go b' n
+              end
+            else (r, free, e)
+          else
+            let '(b', n) := blk_append blk0 d in go b' n
+      end
+  end.
+
+Definition change_q (r : list byte) (free off : N) (d : list byte) : list byte * N * N :=
+  change_loop_q (N.to_nat (lenN d / DL) + 4) r free off d.
+
+Definition write_at_q (r : list byte) (free off : N) (d : list byte) : list byte * N * N * N :=
+  let '(size, e) := size_of r in
+  if e =? E_OK then
+    if size <? off then
+      match d with
+      | [] => (r, free, 0, E_OK)
+      | _ =>
+        let '(r1, f1, e1) := pad_q r free (off - size) in
+        if e1 =? E_OK then append_q r1 f1 d else (r1, f1, 0, e1)
+      end
+    else if off =? size then append_q r free d
+    else
+      let clen := N.min size (off + lenN d) - off in
+      let '(r1, f1, e1) := change_q r free off (take clen d) in
+      if e1 =? E_OK then
+        if clen =? lenN d then (r1, f1, lenN d, E_OK)
+        else let '(r2, f2, n, e2) := append_q r1 f1 (drop clen d) in (r2, f2, n + clen, e2)
+      else (r1, f1, 0, e1)
+  else (r, free, 0, e).
+
 (* ---------- operations, results ---------- *)
 Inductive op :=
 | OWriteAt (off : N) (d : list byte)
@@ -572,19 +692,57 @@ Definition rel_verdict (l : list Z) : option (list Z) :=
   | _ => None
   end.
 
-Fixpoint run_ops (s : runstate) (ops : list (list Z)) : list (list Z) :=
+(* quota lines of the harness: `12 free` installs the space quota, `13` removes it *)
+Definition quota_line (l : list Z) : option (option N) :=
+  match l with
+  | [12%Z; f] => if (0 <=? f)%Z then Some (Some (Z.to_N f)) else None
+  | [13%Z] => Some None
+  | _ => None
+  end.
+
+(* a write executed under the quota; afterwards the plain file is re-based on what the checksummed file holds
+   (what must hold after a failed write is the subject of ckfile_enospc_prefix and of the harness monitor) *)
+Definition run_write_q (s : runstate) (free : N) (o : op) : option (runstate * N * list Z) :=
+  let r := ck_raw (rs_ck s) in
+  let pos := ck_pos (rs_ck s) in
+  match o with
+  | OWriteAt off d =>
+      let '(r', f', n, e) := write_at_q r free off d in
+      let ck' := mkck r' pos in
+      Some (mkrun ck' (mkpl (abs r') pos) (rs_dv s) (rs_saved s), f', encode_obs o ck' (mkres n e [] pos))
+  | OWrite d =>
+      let '(r', f', n, e) := write_at_q r free (Z.to_N pos) d in
+      let p := (pos + Z.of_N n)%Z in
+      let ck' := mkck r' p in
+      Some (mkrun ck' (mkpl (abs r') p) (rs_dv s) (rs_saved s), f', encode_obs o ck' (mkres n e [] p))
+  | _ => None
+  end.
+
+Fixpoint run_ops (s : runstate) (free : option N) (ops : list (list Z)) : list (list Z) :=
   match ops with
   | [] => []
   | l :: t =>
       match rel_verdict l with
-      | Some out => out :: run_ops s t
+      | Some out => out :: run_ops s free t
       | None =>
-          match decode_op l with
-          | None => [(-1)%Z] :: run_ops s t
-          | Some o => let '(s', out) := run_step s o in out :: run_ops s' t
+          match quota_line l with
+          | Some q => [0%Z] :: run_ops s q t
+          | None =>
+              match decode_op l with
+              | None => [(-1)%Z] :: run_ops s free t
+              | Some o =>
+                  match free with
+                  | Some f =>
+                      match run_write_q s f o with
+                      | Some (s', f', out) => out :: run_ops s' (Some f') t
+                      | None => let '(s', out) := run_step s o in out :: run_ops s' free t
+                      end
+                  | None => let '(s', out) := run_step s o in out :: run_ops s' free t
+                  end
+              end
           end
       end
   end.
 
 Definition run_case (ops : list (list Z)) : list (list Z) :=
-  run_ops (mkrun (mkck [] 0%Z) (mkpl [] 0%Z) 1 None) ops.
+  run_ops (mkrun (mkck [] 0%Z) (mkpl [] 0%Z) 1 None) None ops.
